@@ -830,6 +830,7 @@ namespace link_layer {
         bool                            pending_event_;
         volatile bool                   restart_user_timer_requested_;
         std::uint8_t                    disconnecting_reason_;
+        bool                            connection_established_reported_;
 
         enum class state
         {
@@ -881,6 +882,7 @@ namespace link_layer {
         , defered_ll_control_pdu_{ nullptr, 0 }
         , used_features_( supported_features )
         , restart_user_timer_requested_( false )
+        , connection_established_reported_( false )
         , state_( state::initial )
         , connection_parameters_request_pending_( false )
         , connection_parameters_request_running_( false )
@@ -943,6 +945,7 @@ namespace link_layer {
                 connection_parameters_request_use_signaling_channel_ = false;
                 phy_update_request_pending_             = false;
                 pending_event_                          = false;
+                connection_established_reported_        = false;
                 remote_versions_request_pending_        = false;
                 version_indication_received_            = false;
                 disconnecting_reason_                   = connection_timeout;
@@ -1025,8 +1028,10 @@ namespace link_layer {
             restart_user_timer_requested_ = false;
         }
 
-        if ( state_ == state::connecting )
+        // disconnect() might have changed state_ before the first connection event took place
+        if ( !connection_established_reported_ )
         {
+            connection_established_reported_ = true;
             this->connection_established( details(), connection_data_, static_cast< radio_t& >( *this ) );
         }
         else if ( state_ == state::connection_changed )
@@ -1436,7 +1441,7 @@ namespace link_layer {
         this->reset_encryption();
         this->reset_phy( *this );
 
-        if ( state_ != state::connecting )
+        if ( connection_established_reported_ )
         {
             this->synchronized_connection_event_callback_disconnect();
             this->connection_closed( disconnecting_reason_, connection_data_, static_cast< radio_t& >( *this ) );
